@@ -1,1 +1,427 @@
-harnesses! {}
+//! C19 — coordinate traversal, mapping and bounding boxes are mutually consistent.
+//!
+//! `T = i8` (no arithmetic in geo's code; the mapping function uses wrapping arithmetic).  Shapes
+//! are concrete, coordinates symbolic.  For every shape the expected traversal is written out by
+//! hand from the documented order and everything else is checked against it.
+use crate::Src;
+use core::cell::Cell;
+use geo::bounding_rect::BoundingRect;
+use geo::coords_iter::CoordsIter;
+use geo::extremes::Extremes;
+use geo::lines_iter::LinesIter;
+use geo::map_coords::{MapCoords, MapCoordsInPlace};
+use geo_types::{coord, Coord, Geometry, GeometryCollection, Line, LineString, MultiLineString, MultiPoint, MultiPolygon, Point, Polygon, Rect, Triangle};
+
+pub type T = i8;
+type C = Coord<T>;
+
+fn any_c<S: Src>(s: &mut S) -> C {
+    coord! { x: s.i8(), y: s.i8() }
+}
+
+/// coords_count / coords_iter / exterior_coords_iter against the hand-written sequences
+fn check_traversal<G: CoordsIter<Scalar = T>>(g: &G, want: &[C], want_ext: &[C]) {
+    assert!(g.coords_count() == want.len(), "coords_count differs from the number of coordinates");
+    let mut it = g.coords_iter();
+    let mut i = 0;
+    while i < want.len() {
+        let c = it.next();
+        assert!(c.is_some(), "coords_iter ended early");
+        assert!(c.unwrap() == want[i], "coords_iter yields a wrong coordinate / order");
+        i += 1;
+    }
+    assert!(it.next().is_none(), "coords_iter yields more than coords_count coordinates");
+    let mut it = g.exterior_coords_iter();
+    let mut i = 0;
+    while i < want_ext.len() {
+        let c = it.next();
+        assert!(c.is_some(), "exterior_coords_iter ended early");
+        assert!(c.unwrap() == want_ext[i], "exterior_coords_iter yields a wrong coordinate / order");
+        i += 1;
+    }
+    assert!(it.next().is_none(), "exterior_coords_iter yields too many coordinates");
+}
+
+fn fold_bounds(want: &[C]) -> Option<(C, C)> {
+    if want.is_empty() {
+        return None;
+    }
+    let (mut mn, mut mx) = (want[0], want[0]);
+    let mut i = 1;
+    while i < want.len() {
+        let c = want[i];
+        if c.x < mn.x {
+            mn.x = c.x
+        }
+        if c.y < mn.y {
+            mn.y = c.y
+        }
+        if c.x > mx.x {
+            mx.x = c.x
+        }
+        if c.y > mx.y {
+            mx.y = c.y
+        }
+        i += 1;
+    }
+    Some((mn, mx))
+}
+
+fn check_bounds(got: Option<Rect<T>>, want: &[C]) {
+    match fold_bounds(want) {
+        None => assert!(got.is_none(), "bounding_rect of a geometry without coordinates is not None"),
+        Some((mn, mx)) => {
+            assert!(got.is_some(), "bounding_rect is None although there are coordinates");
+            let r = got.unwrap();
+            assert!(r.min() == mn && r.max() == mx, "bounding_rect is not the component-wise min/max of the traversal");
+        }
+    }
+}
+
+fn check_extremes<'a, G: Extremes<'a, T>>(g: &'a G, want_ext: &[C]) {
+    let e = g.extremes();
+    match fold_bounds(want_ext) {
+        None => assert!(e.is_none(), "extremes of an empty geometry is not None"),
+        Some((mn, mx)) => {
+            assert!(e.is_some(), "extremes is None although there are coordinates");
+            let o = e.unwrap();
+            assert!(o.x_min.coord.x == mn.x && o.y_min.coord.y == mn.y && o.x_max.coord.x == mx.x && o.y_max.coord.y == mx.y, "extremes does not attain the bounds");
+            let n = want_ext.len();
+            assert!(o.x_min.index < n && o.y_min.index < n && o.x_max.index < n && o.y_max.index < n, "extremes index out of range");
+            assert!(want_ext[o.x_min.index] == o.x_min.coord && want_ext[o.y_min.index] == o.y_min.coord, "extremes index does not name the reported coordinate (min)");
+            assert!(want_ext[o.x_max.index] == o.x_max.coord && want_ext[o.y_max.index] == o.y_max.coord, "extremes index does not name the reported coordinate (max)");
+        }
+    }
+}
+
+fn check_lines<'a, G: LinesIter<'a, Scalar = T>>(g: &'a G, want: &[(C, C)]) {
+    let mut it = g.lines_iter();
+    let mut i = 0;
+    while i < want.len() {
+        let l = it.next();
+        assert!(l.is_some(), "lines_iter ended early");
+        let l = l.unwrap();
+        assert!(l.start == want[i].0 && l.end == want[i].1, "lines_iter yields a wrong segment / order");
+        i += 1;
+    }
+    assert!(it.next().is_none(), "lines_iter yields too many segments");
+}
+
+/// the mapping function: axis swap + symbolic wrapping translation (injective)
+#[derive(Clone, Copy)]
+pub struct F {
+    dx: T,
+    dy: T,
+}
+impl F {
+    fn any<S: Src>(s: &mut S) -> F {
+        F { dx: s.i8(), dy: s.i8() }
+    }
+    #[inline]
+    fn ap(&self, c: C) -> C {
+        coord! { x: c.y.wrapping_add(self.dx), y: c.x.wrapping_sub(self.dy) }
+    }
+}
+
+/// map_coords / map_coords_in_place / try_map_coords(Ok) give f∘traversal; try_map_coords failing
+/// at position k returns the error and calls f on no coordinate after k
+macro_rules! check_map {
+    ($g:expr, $want:expr, $s:expr) => {{
+        let f = F::any($s);
+        let n = $want.len();
+        let m = $g.map_coords(|c| f.ap(c));
+        assert!(m.coords_count() == n, "map_coords changes the number of coordinates");
+        {
+            let mut it = m.coords_iter();
+            let mut i = 0;
+            while i < n {
+                assert!(it.next() == Some(f.ap($want[i])), "map_coords: traversal of the result is not f applied to the traversal");
+                i += 1;
+            }
+        }
+        let mut g2 = $g.clone();
+        g2.map_coords_in_place(|c| f.ap(c));
+        assert!(g2 == m, "map_coords_in_place disagrees with map_coords");
+        let t: Result<_, u8> = $g.try_map_coords(|c| Ok(f.ap(c)));
+        assert!(t.is_ok() && t.unwrap() == m, "try_map_coords(Ok) disagrees with map_coords");
+        // failing at a symbolic position k
+        if n > 0 {
+            let k = $s.u8() as usize;
+            vassume!(k < n);
+            let calls = Cell::new(0usize);
+            let r: Result<_, u8> = $g.try_map_coords(|c| {
+                let i = calls.get();
+                calls.set(i + 1);
+                if i == k {
+                    Err(7u8)
+                } else {
+                    Ok(f.ap(c))
+                }
+            });
+            assert!(r.is_err(), "try_map_coords swallowed the error");
+            assert!(calls.get() == k + 1, "try_map_coords evaluated f after the failing coordinate (or skipped one before it)");
+            core::mem::forget(r);
+            vcover!(k + 1 == n, "f fails on the last coordinate");
+            vcover!(k == 0, "f fails on the first coordinate");
+        }
+        core::mem::forget(g2);
+        core::mem::forget(m);
+    }};
+}
+
+// ------------------------------------------------------------------------------- shapes
+
+pub fn t_point<S: Src>(s: &mut S) {
+    let a = any_c(s);
+    let g = Point(a);
+    check_traversal(&g, &[a], &[a]);
+    check_bounds(Some(g.bounding_rect()), &[a]);
+    check_extremes(&g, &[a]);
+    check_map!(g, [a], s);
+}
+
+pub fn t_line<S: Src>(s: &mut S) {
+    let (a, b) = (any_c(s), any_c(s));
+    let g = Line::new(a, b);
+    check_traversal(&g, &[a, b], &[a, b]);
+    check_lines(&g, &[(a, b)]);
+    check_bounds(Some(g.bounding_rect()), &[a, b]);
+    check_extremes(&g, &[a, b]);
+    check_map!(g, [a, b], s);
+    vcover!(a.x > b.x && a.y < b.y, "end points in mixed order");
+}
+
+pub fn t_triangle<S: Src>(s: &mut S) {
+    let (a, b, c) = (any_c(s), any_c(s), any_c(s));
+    let g = Triangle(a, b, c);
+    check_traversal(&g, &[a, b, c], &[a, b, c]);
+    check_lines(&g, &[(a, b), (b, c), (c, a)]);
+    check_bounds(Some(g.bounding_rect()), &[a, b, c]);
+    check_extremes(&g, &[a, b, c]);
+}
+
+/// Triangle mapping goes through Triangle::new, which may reverse the vertex order (non-robust
+/// cross product: coordinates kept within +-3 so that it cannot overflow i8)
+pub fn t_triangle_map<S: Src>(s: &mut S) {
+    let small = |s: &mut S| -> C { coord! { x: s.grid(2) as i8, y: s.grid(2) as i8 } };
+    let (a, b, c) = (small(s), small(s), small(s));
+    let f = F { dx: s.grid(1) as i8, dy: s.grid(1) as i8 };
+    let g = Triangle(a, b, c);
+    let m = g.map_coords(|c| f.ap(c));
+    let (fa, fb, fc) = (f.ap(a), f.ap(b), f.ap(c));
+    assert!(m.1 == fb && ((m.0 == fa && m.2 == fc) || (m.0 == fc && m.2 == fa)), "Triangle map_coords lost or moved a vertex");
+    let mut g2 = g;
+    g2.map_coords_in_place(|c| f.ap(c));
+    assert!(g2 == m, "Triangle map_coords_in_place disagrees with map_coords");
+    let t: Result<Triangle<T>, u8> = g.try_map_coords(|c| Ok(f.ap(c)));
+    assert!(t.is_ok() && t.unwrap() == m, "Triangle try_map_coords(Ok) disagrees with map_coords");
+}
+
+pub fn t_rect<S: Src>(s: &mut S) {
+    let (a, b) = (any_c(s), any_c(s));
+    let g = Rect::new(a, b);
+    let (mn, mx) = (g.min(), g.max());
+    // documented (CCW) traversal of a Rect: (max.x,min.y),(max.x,max.y),(min.x,max.y),(min.x,min.y)
+    let want = [coord! {x: mx.x, y: mn.y}, coord! {x: mx.x, y: mx.y}, coord! {x: mn.x, y: mx.y}, coord! {x: mn.x, y: mn.y}];
+    check_traversal(&g, &want, &want);
+    check_bounds(Some(g.bounding_rect()), &want);
+    check_extremes(&g, &want);
+    // Rect re-normalises: map_coords == Rect::new(f(min), f(max))
+    let f = F::any(s);
+    let m = g.map_coords(|c| f.ap(c));
+    assert!(m == Rect::new(f.ap(mn), f.ap(mx)), "Rect map_coords is not Rect::new(f(min), f(max))");
+    let mut g2 = g;
+    g2.map_coords_in_place(|c| f.ap(c));
+    assert!(g2 == m, "Rect map_coords_in_place disagrees with map_coords");
+    let mut n = 0;
+    let mut it = g.lines_iter();
+    while it.next().is_some() {
+        n += 1;
+    }
+    assert!(n == 4, "Rect lines_iter must yield 4 segments");
+}
+
+pub fn t_linestring<S: Src>(s: &mut S, n: usize) {
+    let (a, b, c) = (any_c(s), any_c(s), any_c(s));
+    let all = [a, b, c];
+    let want = &all[..n];
+    let g = LineString::new(want.to_vec());
+    check_traversal(&g, want, want);
+    let segs = [(a, b), (b, c)];
+    check_lines(&g, &segs[..n.saturating_sub(1)]);
+    check_bounds(g.bounding_rect(), want);
+    check_extremes(&g, want);
+    match n {
+        0 => check_map!(g, [a; 0], s),
+        1 => check_map!(g, [a], s),
+        _ => check_map!(g, [a, b, c], s),
+    }
+    core::mem::forget(g);
+}
+
+pub fn t_polygon<S: Src>(s: &mut S, holes: usize, map: bool) {
+    let (a, b, c) = (any_c(s), any_c(s), any_c(s));
+    let (d, e, f_) = (any_c(s), any_c(s), any_c(s));
+    let (h, i_, j) = (any_c(s), any_c(s), any_c(s));
+    // rings closed by construction (Polygon::new has nothing to push)
+    let mut hs = Vec::with_capacity(holes);
+    if holes >= 1 {
+        hs.push(LineString::new(vec![d, e, f_, d]));
+    }
+    if holes >= 2 {
+        hs.push(LineString::new(vec![h, i_, j, h]));
+    }
+    let g = Polygon::new(LineString::new(vec![a, b, c, a]), hs);
+    let all = [a, b, c, a, d, e, f_, d, h, i_, j, h];
+    let want = &all[..4 + 4 * holes];
+    if !map {
+        check_traversal(&g, want, &all[..4]);
+        let segs = [(a, b), (b, c), (c, a), (d, e), (e, f_), (f_, d), (h, i_), (i_, j), (j, h)];
+        check_lines(&g, &segs[..3 + 3 * holes]);
+        // the bounding box of a polygon is that of its exterior ring
+        check_bounds(g.bounding_rect(), &all[..4]);
+        check_extremes(&g, &all[..4]);
+    } else {
+        match holes {
+            0 => check_map!(g, [a, b, c, a], s),
+            1 => check_map!(g, [a, b, c, a, d, e, f_, d], s),
+            _ => check_map!(g, [a, b, c, a, d, e, f_, d, h, i_, j, h], s),
+        }
+    }
+    core::mem::forget(g);
+}
+
+pub fn t_multipoint<S: Src>(s: &mut S, n: usize) {
+    let (a, b) = (any_c(s), any_c(s));
+    let all = [a, b];
+    let want = &all[..n];
+    let mut v = Vec::with_capacity(n);
+    for c in want {
+        v.push(Point(*c));
+    }
+    let g = MultiPoint(v);
+    check_traversal(&g, want, want);
+    check_bounds(g.bounding_rect(), want);
+    check_extremes(&g, want);
+    if n == 0 {
+        check_map!(g, [a; 0], s);
+    } else {
+        check_map!(g, [a, b], s);
+    }
+    core::mem::forget(g);
+}
+
+/// members: 2 coords, EMPTY, 3 coords
+pub fn t_multilinestring<S: Src>(s: &mut S) {
+    let (a, b, c, d, e) = (any_c(s), any_c(s), any_c(s), any_c(s), any_c(s));
+    let g = MultiLineString(vec![LineString::new(vec![a, b]), LineString::new(vec![]), LineString::new(vec![c, d, e])]);
+    let want = [a, b, c, d, e];
+    check_traversal(&g, &want, &want);
+    check_lines(&g, &[(a, b), (c, d), (d, e)]);
+    check_bounds(g.bounding_rect(), &want);
+    check_extremes(&g, &want);
+    check_map!(g, [a, b, c, d, e], s);
+    core::mem::forget(g);
+}
+
+/// members: triangle polygon; EMPTY polygon; triangle polygon with a triangular hole
+pub fn t_multipolygon<S: Src>(s: &mut S) {
+    let (a, b, c) = (any_c(s), any_c(s), any_c(s));
+    let (d, e, f_) = (any_c(s), any_c(s), any_c(s));
+    let (h, i_, j) = (any_c(s), any_c(s), any_c(s));
+    let p1 = Polygon::new(LineString::new(vec![a, b, c, a]), vec![]);
+    let p0 = Polygon::new(LineString::new(vec![]), vec![]);
+    let p2 = Polygon::new(LineString::new(vec![d, e, f_, d]), vec![LineString::new(vec![h, i_, j, h])]);
+    let g = MultiPolygon(vec![p1, p0, p2]);
+    let want = [a, b, c, a, d, e, f_, d, h, i_, j, h];
+    let ext = [a, b, c, a, d, e, f_, d];
+    check_traversal(&g, &want, &ext);
+    check_lines(&g, &[(a, b), (b, c), (c, a), (d, e), (e, f_), (f_, d), (h, i_), (i_, j), (j, h)]);
+    check_bounds(g.bounding_rect(), &ext);
+    check_extremes(&g, &ext);
+    core::mem::forget(g);
+}
+
+pub fn t_multipolygon_map<S: Src>(s: &mut S) {
+    let (a, b, c) = (any_c(s), any_c(s), any_c(s));
+    let (d, e, f_) = (any_c(s), any_c(s), any_c(s));
+    let p1 = Polygon::new(LineString::new(vec![a, b, c, a]), vec![]);
+    let p2 = Polygon::new(LineString::new(vec![d, e, f_, d]), vec![]);
+    let g = MultiPolygon(vec![p1, p2]);
+    check_map!(g, [a, b, c, a, d, e, f_, d], s);
+    core::mem::forget(g);
+}
+
+/// Geometry enum wrappers give the same traversal as the wrapped value
+pub fn t_geometry<S: Src>(s: &mut S, which: u8) {
+    let (a, b, c) = (any_c(s), any_c(s), any_c(s));
+    match which {
+        0 => {
+            let g = Geometry::Point(Point(a));
+            check_traversal(&g, &[a], &[a]);
+            check_bounds(g.bounding_rect(), &[a]);
+        }
+        1 => {
+            let g = Geometry::Line(Line::new(a, b));
+            check_traversal(&g, &[a, b], &[a, b]);
+            check_bounds(g.bounding_rect(), &[a, b]);
+        }
+        2 => {
+            let g = Geometry::LineString(LineString::new(vec![a, b, c]));
+            check_traversal(&g, &[a, b, c], &[a, b, c]);
+            check_bounds(g.bounding_rect(), &[a, b, c]);
+            core::mem::forget(g);
+        }
+        3 => {
+            let g = Geometry::Polygon(Polygon::new(LineString::new(vec![a, b, c, a]), vec![LineString::new(vec![c, b, a, c])]));
+            check_traversal(&g, &[a, b, c, a, c, b, a, c], &[a, b, c, a]);
+            check_bounds(g.bounding_rect(), &[a, b, c, a]);
+            core::mem::forget(g);
+        }
+        _ => {
+            let g = Geometry::Triangle(Triangle(a, b, c));
+            check_traversal(&g, &[a, b, c], &[a, b, c]);
+            check_bounds(g.bounding_rect(), &[a, b, c]);
+        }
+    }
+}
+
+/// collection of depth 1: [Point, EMPTY LineString, Line]
+pub fn t_collection<S: Src>(s: &mut S) {
+    let (a, b, c) = (any_c(s), any_c(s), any_c(s));
+    let g = GeometryCollection(vec![Geometry::Point(Point(a)), Geometry::LineString(LineString::new(vec![])), Geometry::Line(Line::new(b, c))]);
+    check_traversal(&g, &[a, b, c], &[a, b, c]);
+    check_bounds(g.bounding_rect(), &[a, b, c]);
+    core::mem::forget(g);
+}
+
+harnesses! {
+    fn c19_point(s) { t_point(s) }
+    #[kani::unwind(4)] fn c19_line(s) { t_line(s) }
+    #[kani::unwind(5)] fn c19_triangle(s) { t_triangle(s) }
+    #[kani::unwind(6)] fn c19_rect(s) { t_rect(s) }
+    #[kani::unwind(5)] fn c19_linestring_0(s) { t_linestring(s, 0) }
+    #[kani::unwind(5)] fn c19_linestring_1(s) { t_linestring(s, 1) }
+    #[kani::unwind(5)] fn c19_linestring_3(s) { t_linestring(s, 3) }
+    #[kani::unwind(5)] fn c19_triangle_map(s) { t_triangle_map(s) }
+    #[kani::unwind(6)] fn c19_polygon_h0(s) { t_polygon(s, 0, false) }
+    #[kani::unwind(10)] fn c19_polygon_h1(s) { t_polygon(s, 1, false) }
+    #[kani::unwind(14)] fn c19_polygon_h2(s) { t_polygon(s, 2, false) }
+    #[kani::unwind(6)] fn c19_polygon_h0_map(s) { t_polygon(s, 0, true) }
+    #[kani::unwind(10)] fn c19_polygon_h1_map(s) { t_polygon(s, 1, true) }
+    #[kani::unwind(4)] fn c19_multipoint_0(s) { t_multipoint(s, 0) }
+    #[kani::unwind(4)] fn c19_multipoint_2(s) { t_multipoint(s, 2) }
+    #[kani::unwind(7)] fn c19_multilinestring(s) { t_multilinestring(s) }
+    #[kani::unwind(14)] fn c19_multipolygon(s) { t_multipolygon(s) }
+    #[kani::unwind(10)] fn c19_multipolygon_map(s) { t_multipolygon_map(s) }
+    #[kani::unwind(5)] fn c19_geometry_point(s) { t_geometry(s, 0) }
+    #[kani::unwind(5)] fn c19_geometry_line(s) { t_geometry(s, 1) }
+    #[kani::unwind(5)] fn c19_geometry_linestring(s) { t_geometry(s, 2) }
+    #[kani::unwind(10)] fn c19_geometry_polygon(s) { t_geometry(s, 3) }
+    #[kani::unwind(5)] fn c19_geometry_triangle(s) { t_geometry(s, 4) }
+    #[kani::unwind(5)] fn c19_collection(s) { t_collection(s) }
+    #[kani::unwind(5)] fn c19_sanity_must_fail(s) {
+        t_linestring(s, 3);
+        assert!(false, "sanity twin reached its end");
+    }
+}
